@@ -1,6 +1,7 @@
 //! C08 (implementation-side search): total and allocation free on display-scale inputs.
 //!   p_total <zoo case...>      every query and draw of one drawable: no panic, no allocation, bounded steps
-//! Panics are caught here and reported with the input class so that known findings can be told apart.
+//!   ok_<fn> <args...>          correspondence with coq/Model/Overflow.v: did the real function panic (overflow checks and
+//!                              debug assertions are on in this profile)?  prints OK / PANIC, the model prints f_ok.
 use crate::util::*;
 use crate::zoo::*;
 use embedded_graphics::{pixelcolor::Rgb565, prelude::*, primitives::Rectangle, Pixel};
@@ -11,6 +12,10 @@ pub struct NullTarget {
     pub bb: Rectangle,
     pub n: u64,
     pub sum: u64,
+}
+thread_local! { static BUDGET: std::cell::Cell<u64> = std::cell::Cell::new(400_000_000); }
+fn budget() -> u64 {
+    BUDGET.with(|b| b.get())
 }
 impl Dimensions for NullTarget {
     fn bounding_box(&self) -> Rectangle {
@@ -24,7 +29,7 @@ impl DrawTarget for NullTarget {
         for Pixel(p, c) in pixels {
             self.n += 1;
             self.sum = self.sum.wrapping_add((p.x as u64) ^ ((p.y as u64) << 16) ^ c.into_storage() as u64);
-            if self.n > 400_000_000 {
+            if self.n > budget() {
                 panic!("step budget exceeded");
             }
         }
@@ -63,12 +68,18 @@ impl DrawTarget for NullIterTarget {
     }
 }
 
-const CAP: usize = 60_000_000;
 
 fn exercise(z: &Zoo) -> Result<u64, String> {
     let mut steps: u64 = 0;
     let bb = z.bounding_box();
     steps += bb.size.width as u64;
+    // explicit step bound: no iterator of a drawable may yield more than 16 x the area of its (styled) bounding
+    // box plus a constant (overdraw of thick joins, glyph backgrounds, decoration lines); the targets and the
+    // counting loops below stop there
+    let cap = 16 * (bb.size.width as u64 + 8) * (bb.size.height as u64 + 8) + 65_536;
+    BUDGET.with(|b| b.set(cap));
+    #[allow(non_snake_case)]
+    let CAP = cap as usize;
     if let Some(pb) = z.primitive_bounding_box() {
         // contains() on the corners and centre of the box and a margin
         for q in [pb.top_left, pb.top_left - Point::new(1, 1), pb.center(), pb.top_left + pb.size, Point::new(1024, -1024)] {
@@ -78,11 +89,11 @@ fn exercise(z: &Zoo) -> Result<u64, String> {
         }
     }
     // points() / pixels() counted without collecting (no allocation allowed in here)
-    let np = count_points(z);
+    let np = count_points(z, CAP);
     if np >= CAP as u64 {
         return Err("points() exceeded the step budget".into());
     }
-    let nx = count_pixels(z);
+    let nx = count_pixels(z, CAP);
     if nx >= CAP as u64 {
         return Err("pixels() exceeded the step budget".into());
     }
@@ -94,10 +105,123 @@ fn exercise(z: &Zoo) -> Result<u64, String> {
     let mut t2 = NullIterTarget(NullTarget { bb: Rectangle::new(Point::zero(), Size::new(320, 240)), n: 0, sum: 0 });
     z.draw(&mut t2).unwrap();
     steps += t2.0.n;
+    steps += adapters(z, &bb)?;
+    steps += rejections(z);
+    steps += null_font_text(z);
     Ok(steps)
 }
 
-fn count_points(z: &Zoo) -> u64 {
+/// the null font (`MonoTextStyleBuilder::new()` without `.font()`: zero-sized glyphs) with every baseline and
+/// alignment: bounding_box, draw, measure_string, with and without decorations, for the case's string / position
+fn null_font_text(z: &Zoo) -> u64 {
+    use embedded_graphics::mono_font::MonoTextStyleBuilder;
+    use embedded_graphics::text::renderer::TextRenderer;
+    use embedded_graphics::text::{Alignment, Baseline, Text, TextStyleBuilder};
+    let mut n = 0u64;
+    if let Geo::Text { pos, lh, deco, s, .. } = &z.geo {
+        let mut b = MonoTextStyleBuilder::<Rgb565>::new();
+        if deco & 1 != 0 {
+            b = b.text_color(TEXT);
+        }
+        if deco & 2 != 0 {
+            b = b.background_color(BG);
+        }
+        if deco & 4 != 0 {
+            b = b.underline_with_color(UL);
+        }
+        if deco & 8 != 0 {
+            b = b.strikethrough_with_color(ST);
+        }
+        let cs = b.build();
+        for baseline in [Baseline::Top, Baseline::Bottom, Baseline::Middle, Baseline::Alphabetic] {
+            for alignment in [Alignment::Left, Alignment::Center, Alignment::Right] {
+                let ts = TextStyleBuilder::new().alignment(alignment).baseline(baseline).line_height(*lh).build();
+                for text in [STRINGS[*s], "", "\n", "a\r\nb"] {
+                    let txt = Text::with_text_style(text, *pos, cs, ts);
+                    let bb = txt.bounding_box();
+                    let mut t = NullTarget { bb: Rectangle::new(Point::new(-2048, -2048), Size::new(4096, 4096)), n: 0, sum: 0 };
+                    let next = txt.draw(&mut t).unwrap();
+                    let m = cs.measure_string(text, *pos, baseline);
+                    n += t.n + bb.size.width as u64 + (next.x ^ m.next_position.x) as u64 % 2;
+                }
+            }
+        }
+    }
+    n
+}
+
+/// adapter stacks: the drawable and the three native fill calls through clipped / cropped / translated /
+/// colour-converted views whose areas are degenerate, partly outside, or larger than the parent
+fn adapters(z: &Zoo, bb: &Rectangle) -> Result<u64, String> {
+    use embedded_graphics::draw_target::DrawTargetExt;
+    let mut n = 0u64;
+    let areas = [
+        Rectangle::new(Point::new(5, 5), Size::new(100, 0)),
+        Rectangle::new(Point::new(5, 5), Size::new(0, 100)),
+        Rectangle::new(Point::new(-10, -10), Size::new(50, 50)),
+        Rectangle::zero(),
+        Rectangle::new(Point::new(1000, 1000), Size::new(1024, 1024)),
+        Rectangle::new(Point::new(-1024, -1024), Size::new(1024, 1)),
+        bb.offset(-1),
+        Rectangle::new(bb.top_left + Point::new(1, 1), Size::new(bb.size.width / 2, bb.size.height)),
+        Rectangle::new(bb.top_left - Point::new(3, 0), Size::new(bb.size.width + 7, 0)),
+    ];
+    for (k, area) in areas.iter().enumerate() {
+        let mut t = NullTarget { bb: Rectangle::new(Point::new(-64, -64), Size::new(384, 304)), n: 0, sum: 0 };
+        z.draw(&mut t.clipped(area)).unwrap();
+        z.draw(&mut t.cropped(area)).unwrap();
+        z.draw(&mut t.translated(area.top_left)).unwrap();
+        z.draw(&mut t.cropped(area).clipped(&areas[(k + 2) % areas.len()]).translated(Point::new(-3, 2))).unwrap();
+        {
+            // a colour-converting view on a target of another colour type, inside a clipped / translated stack
+            let mut t8 = NullTarget888(0);
+            z.draw(&mut t8.clipped(area).color_converted()).unwrap();
+            z.draw(&mut t8.translated(Point::new(7, -7)).cropped(area).color_converted()).unwrap();
+            t.n += t8.0;
+        }
+        // the native calls themselves, with a fill area that is not the view's area
+        let other = &areas[(k + 1) % areas.len()];
+        let colors = core::iter::repeat(Rgb565::new(1, 2, 3));
+        t.clipped(area).fill_contiguous(other, colors.clone()).unwrap();
+        t.cropped(area).fill_contiguous(other, colors.clone().take(17)).unwrap();
+        t.clipped(area).fill_contiguous(bb, colors.take(100_000)).unwrap();
+        t.clipped(area).fill_solid(other, Rgb565::new(3, 2, 1)).unwrap();
+        t.cropped(area).clear(Rgb565::new(3, 2, 1)).unwrap();
+        if t.n > 12 * budget() + 1_000_000 {
+            return Err("adapter drawing exceeded the step budget".into());
+        }
+        n += t.n;
+    }
+    Ok(n)
+}
+
+/// out-of-range requests are rejected without a panic (images: pixel(), sub images outside the image)
+fn rejections(z: &Zoo) -> u64 {
+    use embedded_graphics::image::{GetPixel, ImageDrawable, ImageDrawableExt, ImageRaw};
+    let mut n = 0u64;
+    if let Geo::Image { size, data, .. } = &z.geo {
+        let raw: ImageRaw<Rgb565> = ImageRaw::new(data, *size).unwrap();
+        let (w, h) = (size.width as i32, size.height as i32);
+        for p in [Point::new(-1, 0), Point::new(0, -1), Point::new(w, 0), Point::new(0, h), Point::new(w - 1, h - 1), Point::new(i32::MAX, i32::MAX), Point::new(i32::MIN, i32::MIN), Point::new(1024, -1024)] {
+            let inside = p.x >= 0 && p.y >= 0 && p.x < w && p.y < h;
+            let got = raw.pixel(p);
+            if got.is_some() != inside {
+                panic!("ImageRaw::pixel({:?}) on {}x{}: is_some = {}", p, w, h, got.is_some());
+            }
+            n += 1;
+        }
+        let mut t = NullTarget { bb: Rectangle::new(Point::zero(), Size::new(64, 64)), n: 0, sum: 0 };
+        for area in [Rectangle::new(Point::new(w, h), Size::new(3, 3)), Rectangle::new(Point::new(-5, -5), Size::new(3, 3)), Rectangle::new(Point::new(-1, -1), Size::new(1024, 1024)), Rectangle::new(Point::new(1, 1), Size::new(0, 7))] {
+            raw.sub_image(&area).draw(&mut t).unwrap();
+            raw.sub_image(&area).sub_image(&Rectangle::new(Point::new(1, -1), Size::new(2, 1024))).draw(&mut t).unwrap();
+        }
+        n += t.n;
+    }
+    n
+}
+
+#[allow(non_snake_case)]
+fn count_points(z: &Zoo, CAP: usize) -> u64 {
     use embedded_graphics::primitives::*;
     match &z.geo {
         Geo::Rect(p) => p.points().take(CAP).count() as u64,
@@ -112,7 +236,8 @@ fn count_points(z: &Zoo) -> u64 {
         _ => 0,
     }
 }
-fn count_pixels(z: &Zoo) -> u64 {
+#[allow(non_snake_case)]
+fn count_pixels(z: &Zoo, CAP: usize) -> u64 {
     use embedded_graphics::primitives::*;
     let st = z.style;
     match &z.geo {
@@ -129,46 +254,287 @@ fn count_pixels(z: &Zoo) -> u64 {
     }
 }
 
-/// Input classes of the recorded findings (known_findings.txt): decided from the INPUT, so that a
-/// panic on an input outside every class is always reported as a new violation.
-fn input_class(z: &Zoo) -> Option<&'static str> {
-    let w = z.style.stroke_width as i64;
-    let len2 = |a: Point, b: Point| {
-        let d = b - a;
-        (d.x as i64).pow(2) + (d.y as i64).pow(2)
-    };
-    let thick_over = |a: Point, b: Point| w >= 2 && (2 * w).pow(2) * len2(a, b).max(1) > i32::MAX as i64;
-    match &z.geo {
-        Geo::Line(l) if thick_over(l.start, l.end) => Some("K08_thick_threshold"),
-        Geo::Tri(t) if w >= 2 => Some("K08_thick_join"),
-        Geo::Poly(_, v) if w >= 2 && v.len() >= 2 => Some("K08_thick_join"),
-        _ => None,
-    }
-}
-
 pub fn run(suite: &str, a: &[&str]) -> Option<String> {
+    if suite.starts_with("ok_") {
+        return ok_suite(suite, a);
+    }
     if suite != "p_total" {
         return None;
     }
+    // The case runs in a worker thread under a wall-clock watchdog: a library call that never returns (a loop inside
+    // `bounding_box()`, say) cannot be stopped by the step budget of a target, but it must still be reported with its input.
+    use std::sync::atomic::{AtomicUsize, Ordering};
+    static HUNG: AtomicUsize = AtomicUsize::new(0);
+    const WATCHDOG_S: u64 = 30;
+    if HUNG.load(Ordering::Relaxed) >= 2 {
+        return Some("FAIL nontermination: not run, two earlier cases of this batch never returned (their threads still spin)".into());
+    }
     let z = Zoo::parse(a);
-    let before = crate::allocs();
-    let r = catch_unwind(AssertUnwindSafe(|| exercise(&z)));
-    let after = crate::allocs();
-    Some(match r {
-        Ok(Ok(steps)) => {
-            if after != before {
-                format!("FAIL class=K08_alloc {} heap allocations during library calls", after - before)
+    // hand-over without any allocation on this thread while the worker measures: two flags and a pre-allocated slot
+    use std::sync::atomic::AtomicBool;
+    use std::sync::{Arc, Mutex};
+    let go = Arc::new(AtomicBool::new(false));
+    let done = Arc::new(AtomicBool::new(false));
+    let slot: Arc<Mutex<Option<String>>> = Arc::new(Mutex::new(None));
+    let (go2, done2, slot2) = (go.clone(), done.clone(), slot.clone());
+    let worker = std::thread::Builder::new().stack_size(32 << 20).spawn(move || {
+        while !go2.load(Ordering::Acquire) {
+            std::hint::spin_loop();
+        }
+        let before = crate::allocs();
+        let r = catch_unwind(AssertUnwindSafe(|| exercise(&z)));
+        let after = crate::allocs();
+        let line = match r {
+            Ok(Ok(steps)) => {
+                if after != before && HUNG.load(Ordering::Relaxed) == 0 {
+                    format!("FAIL alloc: {} heap allocations during library calls", after - before)
+                } else {
+                    format!("OK {}", steps)
+                }
+            }
+            Ok(Err(e)) => format!("FAIL nontermination: {}", e),
+            Err(_) => {
+                // every overflow defect known so far is repaired: a panic is always an unlisted violation
+                let loc = LAST_PANIC.with(|p| p.borrow().clone());
+                let msg = LAST_PANIC_MSG.with(|p| p.borrow().clone());
+                format!("FAIL panic at {} ({})", loc, msg)
+            }
+        };
+        *slot2.lock().unwrap() = Some(line);
+        done2.store(true, Ordering::Release);
+    });
+    if worker.is_err() {
+        return Some("FAIL harness: cannot spawn the worker thread".into());
+    }
+    let t0 = std::time::Instant::now();
+    go.store(true, Ordering::Release);
+    let mut nap = 5u64;
+    while !done.load(Ordering::Acquire) {
+        if t0.elapsed().as_secs() >= WATCHDOG_S {
+            HUNG.fetch_add(1, Ordering::Relaxed);
+            return Some(format!("FAIL nontermination: no result within {} s (explicit step bound: 16 x bounding-box area + 65536 steps take < 2 s)", WATCHDOG_S));
+        }
+        std::thread::sleep(std::time::Duration::from_micros(nap));
+        nap = (nap * 2).min(2000);
+    }
+    let line = slot.lock().unwrap().take();
+    Some(line.unwrap_or_else(|| "FAIL harness: worker finished without a result".into()))
+}
+
+// ---- correspondence suites for the f_ok predicates of coq/Model/Overflow.v ----------------------
+fn verdict<R, F: FnOnce() -> R>(f: F) -> String {
+    match catch_unwind(AssertUnwindSafe(|| {
+        std::hint::black_box(f());
+    })) {
+        Ok(()) => "OK".into(),
+        Err(_) => "PANIC".into(),
+    }
+}
+
+fn ok_suite(suite: &str, a: &[&str]) -> Option<String> {
+    use embedded_graphics::geometry::{AnchorPoint, AnchorX, AnchorY};
+    use embedded_graphics::image::{ImageDrawable, ImageRaw};
+    use embedded_graphics::pixelcolor::*;
+    use embedded_graphics::primitives::*;
+    use embedded_graphics::text::LineHeight;
+    let axo = |s: &str| match s { "0" => AnchorX::Left, "1" => AnchorX::Center, _ => AnchorX::Right };
+    let ayo = |s: &str| match s { "0" => AnchorY::Top, "1" => AnchorY::Center, _ => AnchorY::Bottom };
+    Some(match suite {
+        "ok_point" => {
+            let (p, q) = (pt(a[1], a[2]), pt(a[3], a[4]));
+            let sz = Size::new(u(a[3]), u(a[4]));
+            match a[0] {
+                "add" => verdict(|| p + q),
+                "sub" => verdict(|| p - q),
+                "mul" => verdict(|| p * q.x),
+                "div" => verdict(|| p / q.x),
+                "neg" => verdict(|| -p),
+                "abs" => verdict(|| p.abs()),
+                "cmul" => verdict(|| p.component_mul(q)),
+                "cdiv" => verdict(|| p.component_div(q)),
+                "addsize" => verdict(|| p + sz),
+                "subsize" => verdict(|| p - sz),
+                "addassign" => verdict(|| { let mut r = p; r += q; r -= q; r }),
+                _ => return None,
+            }
+        }
+        "ok_size" => {
+            let (s1, s2) = (Size::new(u(a[1]), u(a[2])), Size::new(u(a[3]), u(a[4])));
+            match a[0] {
+                "add" => verdict(|| s1 + s2),
+                "sub" => verdict(|| s1 - s2),
+                "mul" => verdict(|| s1 * s2.width),
+                "div" => verdict(|| s1 / s2.width),
+                "cmul" => verdict(|| s1.component_mul(s2)),
+                "cdiv" => verdict(|| s1.component_div(s2)),
+                "sat" => verdict(|| (s1.saturating_add(s2), s1.saturating_sub(s2))),
+                _ => return None,
+            }
+        }
+        "ok_rect" => {
+            let r = rc(a[1], a[2], a[3], a[4]);
+            match a[0] {
+                "br" => verdict(|| r.bottom_right()),
+                "center" => verdict(|| r.center()),
+                "withcenter" => verdict(|| Rectangle::with_center(r.top_left, r.size)),
+                "corners" => verdict(|| Rectangle::with_corners(pt(a[1], a[2]), pt(a[3], a[4]))),
+                "contains" => verdict(|| r.contains(pt(a[5], a[6]))),
+                "inter" => verdict(|| r.intersection(&rc(a[5], a[6], a[7], a[8]))),
+                "envelope" => verdict(|| r.envelope(&rc(a[5], a[6], a[7], a[8]))),
+                "anchor" => verdict(|| r.anchor_point(AnchorPoint::from_xy(axo(a[5]), ayo(a[6])))),
+                "resized" => verdict(|| r.resized(Size::new(u(a[5]), u(a[6])), AnchorPoint::from_xy(axo(a[7]), ayo(a[8])))),
+                "offset" => verdict(|| r.offset(i(a[5]))),
+                "rows" => verdict(|| (r.rows(), r.columns())),
+                "styledbb" => {
+                    let st = PrimitiveStyleBuilder::<Rgb565>::new()
+                        .stroke_color(Rgb565::new(1, 2, 3))
+                        .stroke_width(u(a[5]))
+                        .stroke_alignment(match a[6] { "0" => StrokeAlignment::Inside, "1" => StrokeAlignment::Center, _ => StrokeAlignment::Outside })
+                        .build();
+                    verdict(|| r.into_styled(st).bounding_box())
+                }
+                _ => return None,
+            }
+        }
+        "ok_circle_contains" => verdict(|| Circle::new(pt(a[0], a[1]), u(a[2])).contains(pt(a[3], a[4]))),
+        "ok_ellipse_contains" => verdict(|| Ellipse::new(pt(a[0], a[1]), Size::new(u(a[2]), u(a[3]))).contains(pt(a[4], a[5]))),
+        "ok_confine" => {
+            let s = |k: usize| Size::new(u(a[k]), u(a[k + 1]));
+            let rr = RoundedRectangle::new(
+                Rectangle::new(Point::zero(), s(0)),
+                CornerRadii { top_left: s(2), top_right: s(4), bottom_right: s(6), bottom_left: s(8) },
+            );
+            verdict(|| rr.confine_radii())
+        }
+        "ok_line_points" => verdict(|| Line::new(pt(a[0], a[1]), pt(a[2], a[3])).points().take(100_000).count()),
+        "ok_line_misc" => {
+            let l = Line::new(pt(a[1], a[2]), pt(a[3], a[4]));
+            match a[0] {
+                "delta" => verdict(|| l.delta()),
+                "midpoint" => verdict(|| l.midpoint()),
+                _ => return None,
+            }
+        }
+        "ok_thick_new" => {
+            let l = Line::new(pt(a[0], a[1]), pt(a[2], a[3]));
+            let st = PrimitiveStyle::with_stroke(Rgb565::new(1, 2, 3), u(a[4]));
+            verdict(|| {
+                let _it = l.into_styled(st).pixels();
+            })
+        }
+        "ok_tri_contains" => verdict(|| Triangle::new(pt(a[0], a[1]), pt(a[2], a[3]), pt(a[4], a[5])).contains(pt(a[6], a[7]))),
+        // internals reached through the add-only `verif_hooks` feature (src/primitives/verif_hooks.rs)
+        "ok_linear_equation" => {
+            let l = Line::new(pt(a[0], a[1]), pt(a[2], a[3]));
+            verdict(|| embedded_graphics::primitives::verif_hooks::linear_equation(l, pt(a[4], a[5])))
+        }
+        "ok_line_intersection" => {
+            let l1 = Line::new(pt(a[0], a[1]), pt(a[2], a[3]));
+            let l2 = Line::new(pt(a[4], a[5]), pt(a[6], a[7]));
+            verdict(|| embedded_graphics::primitives::verif_hooks::line_intersection(l1, l2))
+        }
+        "ok_measure" | "ok_draw_plain" => {
+            // custom mono font: x y baseline n underline cw ch sp bl uo uh
+            use embedded_graphics::mono_font::{mapping::ASCII, DecorationDimensions, MonoFont, MonoTextStyleBuilder};
+            use embedded_graphics::text::{renderer::TextRenderer, Baseline};
+            let empty: [u8; 0] = [];
+            let font = MonoFont {
+                image: ImageRaw::new(&empty, Size::zero()).unwrap(),
+                glyph_mapping: &ASCII,
+                character_size: Size::new(u(a[5]), u(a[6])),
+                character_spacing: u(a[7]),
+                baseline: u(a[8]),
+                underline: DecorationDimensions::new(u(a[9]), u(a[10])),
+                strikethrough: DecorationDimensions::new(0, 1),
+            };
+            let mut b = MonoTextStyleBuilder::<Rgb565>::new().font(&font);
+            if a[4] == "1" {
+                b = b.underline();
+            }
+            let cs = b.build();
+            let baseline = match a[2] { "0" => Baseline::Top, "1" => Baseline::Bottom, "2" => Baseline::Middle, _ => Baseline::Alphabetic };
+            let text = "a".repeat(us(a[3]));
+            let pos = pt(a[0], a[1]);
+            if suite == "ok_measure" {
+                verdict(|| cs.measure_string(&text, pos, baseline))
             } else {
-                format!("OK {}", steps)
+                let mut t = NullTarget { bb: Rectangle::new(Point::zero(), Size::new(64, 64)), n: 0, sum: 0 };
+                verdict(|| cs.draw_string(&text, pos, baseline, &mut t).unwrap())
             }
         }
-        Ok(Err(e)) => format!("FAIL class=K08_nontermination {}", e),
-        Err(_) => {
-            let loc = LAST_PANIC.with(|p| p.borrow().clone());
-            match input_class(&z) {
-                Some(c) => format!("FAIL class={} panic at {}", c, loc),
-                None => format!("FAIL panic at {} (input in no recorded class)", loc),
+        "ok_line_height" => verdict(|| if a[0] == "1" { LineHeight::Percent(u(a[1])).to_absolute(u(a[2])) } else { LineHeight::Pixels(u(a[1])).to_absolute(u(a[2])) }),
+        "ok_image_new" => {
+            let sz = Size::new(u(a[0]), u(a[1]));
+            let data: [u8; 0] = [];
+            match a[2] {
+                "1" => verdict(|| ImageRaw::<BinaryColor>::new(&data, sz).is_ok()),
+                "2" => verdict(|| ImageRaw::<Gray2>::new(&data, sz).is_ok()),
+                "4" => verdict(|| ImageRaw::<Gray4>::new(&data, sz).is_ok()),
+                "8" => verdict(|| ImageRaw::<Gray8>::new(&data, sz).is_ok()),
+                "16" => verdict(|| ImageRaw::<Rgb565>::new(&data, sz).is_ok()),
+                "24" => verdict(|| ImageRaw::<Rgb888>::new(&data, sz).is_ok()),
+                _ => return None,
             }
         }
+        "ok_sub_image" => {
+            // 16 x 8 image, direct call of draw_sub_image with an arbitrary area (SubImage would clip it first)
+            let area = rc(a[1], a[2], a[3], a[4]);
+            let mut t = NullTarget { bb: Rectangle::new(Point::zero(), Size::new(64, 64)), n: 0, sum: 0 };
+            static D: [u8; 256] = [0x5a; 256];
+            match a[0] {
+                "1" => { let im = ImageRaw::<BinaryColor>::new(&D[..16], Size::new(16, 8)).unwrap(); verdict(|| { let mut t1 = NullBin(0); im.draw_sub_image(&mut t1, &area).unwrap() }) }
+                "16" => { let im = ImageRaw::<Rgb565>::new(&D[..256], Size::new(16, 8)).unwrap(); verdict(|| im.draw_sub_image(&mut t, &area).unwrap()) }
+                _ => return None,
+            }
+        }
+        _ => return None,
     })
+}
+
+/// minimal BinaryColor target for ok_sub_image
+struct NullBin(u64);
+impl Dimensions for NullBin {
+    fn bounding_box(&self) -> Rectangle {
+        Rectangle::new(Point::zero(), Size::new(64, 64))
+    }
+}
+impl DrawTarget for NullBin {
+    type Color = embedded_graphics::pixelcolor::BinaryColor;
+    type Error = core::convert::Infallible;
+    fn draw_iter<I: IntoIterator<Item = Pixel<Self::Color>>>(&mut self, pixels: I) -> Result<(), Self::Error> {
+        for _ in pixels.into_iter().take(100_000) {
+            self.0 += 1;
+        }
+        Ok(())
+    }
+}
+
+/// Rgb888 target: the far end of a `color_converted()` stack
+struct NullTarget888(u64);
+impl Dimensions for NullTarget888 {
+    fn bounding_box(&self) -> Rectangle {
+        Rectangle::new(Point::new(-64, -64), Size::new(384, 304))
+    }
+}
+impl DrawTarget for NullTarget888 {
+    type Color = embedded_graphics::pixelcolor::Rgb888;
+    type Error = core::convert::Infallible;
+    fn draw_iter<I: IntoIterator<Item = Pixel<Self::Color>>>(&mut self, pixels: I) -> Result<(), Self::Error> {
+        for _ in pixels {
+            self.0 += 1;
+            if self.0 > 12 * budget() + 1_000_000 {
+                panic!("step budget exceeded");
+            }
+        }
+        Ok(())
+    }
+    fn fill_contiguous<I: IntoIterator<Item = Self::Color>>(&mut self, area: &Rectangle, colors: I) -> Result<(), Self::Error> {
+        let n = area.size.width as u64 * area.size.height as u64;
+        self.0 += colors.into_iter().take(n as usize).count() as u64;
+        Ok(())
+    }
+    fn fill_solid(&mut self, area: &Rectangle, _c: Self::Color) -> Result<(), Self::Error> {
+        self.0 += area.size.width as u64 * area.size.height as u64;
+        Ok(())
+    }
 }
